@@ -1,26 +1,180 @@
-//! C07 — odd lengths per strategy, position accounting (probe version)
+//! C07 — odd-length values per strategy; the reader's position equals the bytes consumed.
+//! Real code: parser DataSetReader over StatefulDecoder (parser/src/dataset/read.rs,
+//! parser/src/stateful/decode.rs), source wrapped in a byte counter, decoder wrapped in a
+//! position spy. Coq side: Model/ValueRead.v `check_case`.
+use crate::gen::*;
 use crate::rd::*;
+use dicom_core::VR;
 use serde_json::json;
+use std::collections::BTreeSet;
 use vhc::*;
 
-pub fn cases(_ctx: &Ctx) -> Vec<Case> {
-    let mut out = vec![];
-    let hand: Vec<(&str, Ts, u32, u32, Vec<u8>)> = vec![
+pub fn c_case(o: Opts, tags: &BTreeSet<(u16, u16)>, out: &RunOut, data: &[u8]) -> String {
+    let rows: Vec<String> = tags.iter().filter_map(|&(g, e)| vvr_row(g, e).map(|v| format!("({}, {})", (g as u32) * 65536 + e as u32, v))).collect();
+    let rej: Vec<String> = out.rejected.iter().map(|(vr, b)| format!("({}, {})", vr, c_bytes(b))).collect();
+    let steps: Vec<String> = out.steps.iter().map(|s| format!("({}, {}, {})", s.coq, s.position, s.consumed)).collect();
+    let kind = if o.flexible { 3 } else { o.ts.code() };
+    let typed = |v: Vec<String>, ty: &str| if v.is_empty() { format!("(@nil {})", ty) } else { c_list(v) };
+    c_tuple(&[format!("({}, {}, {})", kind, o.strategy, o.odd), typed(rows, "(N * vvr)"), typed(rej, "(N * bytes)"),
+              if data.is_empty() { "(@nil N)".into() } else { c_bytes(data) }, typed(steps, "(token * N * N)"), out.status.to_string()])
+}
+
+/// Tags the model may have to look up: those of the generator plus every tag the reader reported.
+pub fn tags_seen(tree_tags: &[(u16, u16)], out: &RunOut) -> BTreeSet<(u16, u16)> {
+    let mut t: BTreeSet<(u16, u16)> = tree_tags.iter().cloned().collect();
+    for s in &out.steps { if let Some(tag) = s.tag { t.insert(tag); } }
+    t.insert((0xFFFE, 0xE000)); t.insert((0xFFFE, 0xE00D)); t.insert((0xFFFE, 0xE0DD)); t.insert((0x7FE0, 0x0010));
+    t
+}
+
+fn position_oracle(out: &RunOut) -> Option<Oracle> {
+    // known class first: a fragment cut short by the end of the source
+    let mut last_item_len: Option<u32> = None;
+    for s in &out.steps {
+        if s.kind == 'I' { last_item_len = Some(s.len); }
+        if s.kind == 'F' {
+            if let Some(l) = last_item_len { if (s.value_len as u32) < l && s.position != s.consumed {
+                return Some(Oracle::Fails { class: "TruncatedItemValue".into(), detail: format!("item of {} bytes, {} bytes delivered, position {} consumed {}", l, s.value_len, s.position, s.consumed) });
+            } }
+        }
+    }
+    for (i, s) in out.steps.iter().enumerate() {
+        if s.position != s.consumed {
+            return Some(Oracle::Fails { class: "PositionMismatch".into(), detail: format!("after token {} ({}): position {} but {} bytes consumed", i, s.show, s.position, s.consumed) });
+        }
+    }
+    None
+}
+
+pub fn expect_oracle(exp: &[Expect], o: Opts, out: &RunOut, total: usize) -> Oracle {
+    let got: Vec<Expect> = out.steps.iter().map(|s| (s.kind, s.ktag, s.len)).collect();
+    let fo = if o.odd == 2 { first_odd(exp) } else { None };
+    match fo {
+        Some((k, is_item)) => {
+            let want_status = if is_item { 2 } else { 1 };
+            if out.status == want_status && got.len() == k && got[..] == exp[..k] { Oracle::Holds } else {
+                Oracle::Fails { class: "FailStrategyNoError".into(), detail: format!("expected error class {} after {} tokens, got status {} after {} tokens", want_status, k, out.status, got.len()) }
+            }
+        }
+        None => {
+            if out.status == 0 && got == exp && out.steps.last().map_or(total == 0, |s| s.consumed as usize == total) { Oracle::Holds } else {
+                let i = got.iter().zip(exp.iter()).position(|(a, b)| a != b).unwrap_or(got.len().min(exp.len()));
+                Oracle::Fails { class: if o.odd == 1 { "NextEvenMisaligned".into() } else { "AcceptMisaligned".into() },
+                    detail: format!("status {} ; first difference at token {}: got {:?} expected {:?}", out.status, i, got.get(i), exp.get(i)) }
+            }
+        }
+    }
+}
+
+fn hand() -> Vec<(&'static str, Ts, u32, u32, Vec<u8>)> {
+    vec![
         ("US len 3 then PatientName, ELE accept", Ts::Ele, 1, 0, vec![0x28,0,0x10,0, b'U',b'S',3,0, 1,0,9, 0x10,0,0x10,0, b'P',b'N',2,0, b'A',b' ']),
         ("US len 3 next-even", Ts::Ele, 1, 1, vec![0x28,0,0x10,0, b'U',b'S',3,0, 1,0,9,0, 0x10,0,0x10,0, b'P',b'N',2,0, b'A',b' ']),
         ("US len 3 fail", Ts::Ele, 1, 2, vec![0x28,0,0x10,0, b'U',b'S',3,0, 1,0,9,0, 0x10,0,0x10,0, b'P',b'N',2,0, b'A',b' ']),
-        ("UL len 6 (even, not multiple)", Ts::Ele, 1, 0, vec![0x28,0,0x10,0, b'U',b'L',6,0, 1,0,0,0,9,9, 0x10,0,0x10,0, b'P',b'N',2,0, b'A',b' ']),
-        ("DA all padding interpreted", Ts::Ele, 0, 0, vec![0x08,0,0x20,0, b'D',b'A',2,0, b' ',b' ', 0x10,0,0x10,0, b'P',b'N',2,0, b'A',b' ']),
+        ("UL len 6 (even, not a multiple of 4)", Ts::Ele, 1, 0, vec![0x28,0,0x10,0, b'U',b'L',6,0, 1,0,0,0,9,9, 0x10,0,0x10,0, b'P',b'N',2,0, b'A',b' ']),
+        ("FD len 9 big endian", Ts::Ebe, 1, 0, vec![0,0x18,0x60,0x28, b'F',b'D',0,9, 1,2,3,4,5,6,7,8,9, 0,0x10,0,0x10, b'P',b'N',0,2, b'A',b' ']),
+        ("AT len 5 ILE", Ts::Ile, 1, 0, vec![0x72,0,0x60,0, 5,0,0,0, 0x10,0,0x10,0,7, 0x10,0,0x20,0, 2,0,0,0, b'I',b'D']),
+        ("DA all padding, interpreted, inside an explicit-length item", Ts::Ele, 0, 0, vec![0x08,0,0x82,0x10, b'S',b'Q',0,0,18,0,0,0, 0xfe,0xff,0,0xe0,10,0,0,0, 0x08,0,0x20,0, b'D',b'A',2,0, b' ',b' ', 0x10,0,0x10,0, b'P',b'N',2,0, b'A',b' ']),
+        ("IS blank interpreted", Ts::Ele, 0, 0, vec![0x20,0,0x13,0, b'I',b'S',2,0, b' ',0, 0x10,0,0x10,0, b'P',b'N',2,0, b'A',b' ']),
         ("OB len 3 accept", Ts::Ele, 1, 0, vec![0x09,0,0x10,0x10, b'O',b'B',0,0,3,0,0,0, 1,2,3, 0x10,0,0x10,0, b'P',b'N',2,0, b'A',b' ']),
         ("PN len 1 ILE accept", Ts::Ile, 1, 0, vec![0x10,0,0x10,0, 1,0,0,0, b'A', 0x10,0,0x20,0, 2,0,0,0, b'I',b'D']),
-        ("next-even len 0x7fffffff", Ts::Ile, 1, 1, vec![0x10,0,0x10,0, 0xff,0xff,0xff,0x7f, b'A']),
-        ("truncated fragment", Ts::Ele, 1, 0, vec![0xe0,0x7f,0x10,0, b'O',b'B',0,0,0xff,0xff,0xff,0xff, 0xfe,0xff,0,0xe0,0,0,0,0, 0xfe,0xff,0,0xe0,8,0,0,0, 1,2,3]),
-        ("odd BOT", Ts::Ele, 1, 0, vec![0xe0,0x7f,0x10,0, b'O',b'B',0,0,0xff,0xff,0xff,0xff, 0xfe,0xff,0,0xe0,5,0,0,0, 1,0,0,0,7, 0xfe,0xff,0,0xe0,2,0,0,0, 1,2, 0xfe,0xff,0xdd,0xe0,0,0,0,0]),
-    ];
-    for (name, ts, strategy, odd, data) in hand {
-        let r = run(&data, Opts { ts, strategy, odd, flexible: false });
-        let steps: Vec<String> = r.steps.iter().map(|s| format!("{} pos={} consumed={}", s.show, s.position, s.consumed)).collect();
-        out.push(Case { coq: String::new(), desc: json!({"name": name, "len": data.len(), "steps": steps, "status": r.status}), key: String::new(), oracle: Oracle::NotApplicable });
+        ("next-even, length 0x7fffffff", Ts::Ile, 1, 1, vec![0x10,0,0x10,0, 0xff,0xff,0xff,0x7f, b'A']),
+        ("truncated fragment (known finding)", Ts::Ele, 1, 0, vec![0xe0,0x7f,0x10,0, b'O',b'B',0,0,0xff,0xff,0xff,0xff, 0xfe,0xff,0,0xe0,0,0,0,0, 0xfe,0xff,0,0xe0,8,0,0,0, 1,2,3]),
+        ("odd offset table", Ts::Ele, 1, 0, vec![0xe0,0x7f,0x10,0, b'O',b'B',0,0,0xff,0xff,0xff,0xff, 0xfe,0xff,0,0xe0,5,0,0,0, 1,0,0,0,7, 0xfe,0xff,0,0xe0,2,0,0,0, 1,2, 0xfe,0xff,0xdd,0xe0,0,0,0,0]),
+        ("odd item length, fail", Ts::Ile, 1, 2, vec![0x08,0,0x82,0x10, 0xff,0xff,0xff,0xff, 0xfe,0xff,0,0xe0,9,0,0,0, 0x10,0,0x10,0, 1,0,0,0, b'A']),
+        ("pixel representation then xs element", Ts::Ele, 1, 0, vec![0x28,0,0x03,0x01, b'U',b'S',2,0, 1,0, 0x28,0,0x06,0x01, b'U',b'S',3,0, 0xff,0xff,7]),
+        ("stray item delimiters at top level", Ts::Ile, 1, 0, vec![0xfe,0xff,0x0d,0xe0,0,0,0,0, 0xfe,0xff,0x0d,0xe0,0,0,0,0, 0x10,0,0x10,0, 1,0,0,0, b'A']),
+    ]
+}
+
+pub fn cases(ctx: &Ctx) -> Vec<Case> {
+    let mut r = Rng::new(ctx.seed);
+    let p = pools();
+    let mut out = vec![];
+    let hands = hand();
+    for i in 0..ctx.n {
+        if i < hands.len() {
+            let (name, ts, strategy, odd, data) = &hands[i];
+            let o = Opts { ts: *ts, strategy: *strategy, odd: *odd, flexible: false };
+            let res = run(data, o);
+            let tags = tags_seen(&[], &res);
+            let oracle = position_oracle(&res).unwrap_or(if res.status == 1000 { Oracle::Fails { class: "Panic".into(), detail: "reader panicked".into() } } else { Oracle::Holds });
+            out.push(Case {
+                coq: if res.opaque || res.status == 1000 { String::new() } else { c_case(o, &tags, &res, data) },
+                desc: json!({"bucket": "corpus", "name": name, "stream": hex(data), "steps": res.steps.iter().map(|s| format!("{} pos={} consumed={}", s.show, s.position, s.consumed)).collect::<Vec<_>>(), "status": res.status}),
+                key: format!("hand{}", i),
+                oracle,
+            });
+            continue;
+        }
+        let ts = [Ts::Ile, Ts::Ele, Ts::Ebe][i % 3];
+        let odd = ((i / 3) % 3) as u32;
+        let strategy = match r.below(10) { 0..=4 => 1, 5..=7 => 0, _ => 2 };
+        let o = Opts { ts, strategy, odd, flexible: false };
+        let cfg = GenCfg { depth: 2, pix: r.chance(1, 4), odd_bias: true, interp_bias: strategy == 0 };
+        let count = r.range(1, 5) as usize;
+        let mut nodes = gen_nodes(&mut r, &p, ts, &cfg, count);
+        // Pixel Representation = signed, followed by elements whose dictionary VR is `xs`
+        if r.chance(1, 10) {
+            let v: Vec<u8> = if ts == Ts::Ebe { vec![0, 1] } else { vec![1, 0] };
+            nodes.insert(0, Node::Elem { tag: (0x0028, 0x0103), vr: VR::US, data: if r.chance(1, 4) { vec![1] } else { v } });
+            let t = *r.pick(&p.xs);
+            nodes.push(Node::Elem { tag: t, vr: VR::US, data: value_bytes(&mut r, VR::US, Some(true)) });
+        }
+        let matched_pad = !r.chance(1, 10);
+        let pad_odd = (odd == 1) == matched_pad;
+        let mut data = vec![];
+        let mut exp = vec![];
+        encode(&nodes, ts, pad_odd, &mut data, &mut exp);
+        // malformed variants: truncation, a length off by one, a stray delimiter in front
+        let malformed = match r.below(10) {
+            0 => { let k = r.below(data.len() as u64 + 1) as usize; data.truncate(k); "truncated" }
+            1 if data.len() > 8 => { let k = if ts == Ts::Ile { 4 } else { 6 }; data[k] ^= 1; "first-length-flipped" }
+            2 => { let mut d = vec![]; if ts == Ts::Ebe { d.extend_from_slice(&[0xff, 0xfe, 0xe0, 0x0d, 0, 0, 0, 0]); } else { d.extend_from_slice(&[0xfe, 0xff, 0x0d, 0xe0, 0, 0, 0, 0]); } d.extend_from_slice(&data); data = d; "stray-delimiter" }
+            _ => "",
+        };
+        let res = run(&data, o);
+        let mut tt = vec![];
+        all_tags(&nodes, &mut tt);
+        let tags = tags_seen(&tt, &res);
+        let well_formed = malformed.is_empty() && pad_odd == (odd == 1);
+        let comparable = !res.opaque && res.status != 1000;
+        let oracle = if res.status == 1000 {
+            Oracle::Fails { class: "Panic".into(), detail: "reader panicked".into() }
+        } else if let Some(f) = position_oracle(&res) {
+            f
+        } else if well_formed && comparable && !(res.status == 5 && !res.rejected.is_empty()) {
+            expect_oracle(&exp, o, &res, data.len())
+        } else if malformed == "stray-delimiter" && pad_odd == (odd == 1) && comparable && !(res.status == 5 && !res.rejected.is_empty()) {
+            // the stray delimiter is skipped: positions shift by 8, tokens are unchanged
+            expect_oracle(&exp, o, &res, data.len())
+        } else {
+            Oracle::NotApplicable
+        };
+        // the lazy reader (parser/src/dataset/lazy_read.rs) over the same stream: same oracles
+        let oracle = match oracle {
+            Oracle::Fails { .. } => oracle,
+            eager => {
+                let lz = run_lazy(&data, o);
+                let rename = |o: Oracle| match o { Oracle::Fails { class, detail } => Oracle::Fails { class: format!("Lazy{}", class), detail }, x => x };
+                if lz.status == 1000 { eager }
+                else if let Some(f) = position_oracle(&lz) { match f { Oracle::Fails { ref class, .. } if class == "TruncatedItemValue" => f, f => rename(f) } }
+                else if well_formed && lz.rejected.is_empty() && !res.opaque && !(res.status == 5 && !res.rejected.is_empty()) {
+                    // the lazy reader reports the offset table as a plain item value
+                    let exp_lazy: Vec<Expect> = exp.iter().map(|&(k, t, l)| (if k == 'O' { 'F' } else { k }, t, l)).collect();
+                    match rename(expect_oracle(&exp_lazy, o, &lz, data.len())) { Oracle::Holds => eager, f => f }
+                } else { eager }
+            }
+        };
+        let has_odd = first_odd(&{ let mut e2 = vec![]; let mut d2 = vec![]; encode(&nodes, ts, false, &mut d2, &mut e2); e2 }).is_some();
+        out.push(Case {
+            coq: if comparable { c_case(o, &tags, &res, &data) } else { String::new() },
+            desc: json!({"bucket": format!("{:?}/odd{}/strat{}/{}{}", ts, odd, strategy, if has_odd { "odd" } else { "even" }, if malformed.is_empty() { String::new() } else { format!("/{}", malformed) }),
+                         "tree": format!("{:?}", nodes), "stream": hex(&data), "status": res.status,
+                         "steps": res.steps.iter().map(|s| format!("{} pos={} consumed={}", s.show, s.position, s.consumed)).collect::<Vec<_>>()}),
+            key: if has_odd { format!("{:?}{}{}{}", ts, odd, strategy, hex(&data)) } else { String::new() },
+            oracle,
+        });
     }
     out
 }
